@@ -1,11 +1,13 @@
 /-
 Properties/C13.lean — grouped / conditional statistics are compositions of the group-wise statistic
 (pyrepseq/stats.py `pc_conditional`, `pc_grouped_cross`, `pcDelta_grouped`, `pcDelta_grouped_cross`;
-pyrepseq/entropy.py `renyi2_entropy`).
+pyrepseq/entropy.py `renyi2_entropy`, `stdrenyi2_entropy`).
 
-Only property theorems and non-vacuity examples live here; helper lemmas are in Proofs/Grouped.lean.
+Only property theorems and non-vacuity examples live here; helper lemmas are in Proofs/Grouped.lean and
+Proofs/FormulasEntropy.lean (the two entropy functions as re-translated from pyrepseq/entropy.py on every run).
 -/
 import Prs.Proofs.Grouped
+import Prs.Proofs.FormulasEntropy
 
 namespace Prs
 
@@ -181,6 +183,70 @@ theorem C13_renyi_nonneg (b p : ℝ) (hb : 1 < b) (hp : 0 < p) (hp1 : p ≤ 1) :
   rw [← C13_renyi_zero (some b)]
   exact C13_renyi_mono b p 1 hb hp hp1
 
+/-- `stdrenyi2_entropy` is stdpc / (pc · ln base) -/
+theorem C13_stdrenyi (b sd p : ℝ) : stdRenyi2 (some b) sd p = sd / (p * Real.log b) := by
+  simp [stdRenyi2, div_div]
+
+/-- with `base=None` (natural units) it is stdpc / pc: the first-order error of `-log pc` -/
+theorem C13_stdrenyi_nat (sd p : ℝ) : stdRenyi2 none sd p = sd / p := rfl
+
+/-- error propagation is linear: the standard deviation of the entropy scales with that of pc, and in base b it is the one in
+natural units divided by ln b, exactly as the entropy itself -/
+theorem C13_stdrenyi_units (b sd p : ℝ) :
+    stdRenyi2 (some b) sd p = stdRenyi2 none sd p / Real.log b ∧ renyi2 (some b) p = renyi2 none p / Real.log b := by
+  simp [stdRenyi2, renyi2]
+
+/-- a base that is given and not positive is rejected by both functions, whatever the statistics are -/
+theorem C13_base_rejected (b : ℝ) (hb : b ≤ 0) (v : Option ℝ → ℝ) : checkedBase (some b) v = none := by
+  simp [checkedBase, hb]
+
+theorem C13_base_accepted (b : ℝ) (hb : 0 < b) (v : Option ℝ → ℝ) : checkedBase (some b) v = some (v (some b)) := by
+  simp [checkedBase, not_le.mpr hb]
+
+/-! ### the source: `renyi2_entropy` / `stdrenyi2_entropy` as re-translated from pyrepseq/entropy.py on every run
+(Generated/FormulasEntropy.lean; the value of each call of `pc`, `pc_joint`, `pc_conditional`, `stdpc`, `stdpc_joint` is a
+parameter, `none` is the ValueError) are `renyi2` / `stdRenyi2` of the statistic that belongs to the shape of the call -/
+
+/-- one feature, no `by`: −log_base of `pc` -/
+theorem C13_source_renyi2_single (p pj pcnd b : ℝ) :
+    Generated.renyi2_entropy_single p pj pcnd b = checkedBase (some b) (fun b => renyi2 b p) ∧
+    Generated.renyi2_entropy_single_nat p pj pcnd = some (renyi2 none p) :=
+  ⟨gen_renyi2_single p pj pcnd b, gen_renyi2_single_nat p pj pcnd⟩
+
+/-- a list of features, no `by`: −log_base of `pc_joint` -/
+theorem C13_source_renyi2_joint (p pj pcnd b : ℝ) :
+    Generated.renyi2_entropy_joint p pj pcnd b = checkedBase (some b) (fun b => renyi2 b pj) ∧
+    Generated.renyi2_entropy_joint_nat p pj pcnd = some (renyi2 none pj) :=
+  ⟨gen_renyi2_joint p pj pcnd b, gen_renyi2_joint_nat p pj pcnd⟩
+
+/-- with `by`: −log_base of `pc_conditional` -/
+theorem C13_source_renyi2_conditional (p pj pcnd b : ℝ) :
+    Generated.renyi2_entropy_conditional p pj pcnd b = checkedBase (some b) (fun b => renyi2 b pcnd) ∧
+    Generated.renyi2_entropy_conditional_nat p pj pcnd = some (renyi2 none pcnd) :=
+  ⟨gen_renyi2_conditional p pj pcnd b, gen_renyi2_conditional_nat p pj pcnd⟩
+
+/-- one feature: stdpc / (pc · ln base) -/
+theorem C13_source_stdrenyi2_single (p pj sd sdj b : ℝ) (hb : 0 < b) :
+    Generated.stdrenyi2_entropy_single p pj sd sdj b = some (sd / (p * Real.log b)) ∧
+    Generated.stdrenyi2_entropy_single_nat p pj sd sdj = some (sd / p) := by
+  rw [gen_stdrenyi2_single, gen_stdrenyi2_single_nat, C13_base_accepted b hb, C13_stdrenyi]
+  exact ⟨rfl, rfl⟩
+
+/-- a list of features: stdpc_joint / (pc_joint · ln base) -/
+theorem C13_source_stdrenyi2_joint (p pj sd sdj b : ℝ) (hb : 0 < b) :
+    Generated.stdrenyi2_entropy_joint p pj sd sdj b = some (sdj / (pj * Real.log b)) ∧
+    Generated.stdrenyi2_entropy_joint_nat p pj sd sdj = some (sdj / pj) := by
+  rw [gen_stdrenyi2_joint, gen_stdrenyi2_joint_nat, C13_base_accepted b hb, C13_stdrenyi]
+  exact ⟨rfl, rfl⟩
+
+/-- the validation of `base` comes first in the source of both functions, in every shape of the call -/
+theorem C13_source_base_rejected (p pj pcnd sd sdj b : ℝ) (hb : b ≤ 0) :
+    Generated.renyi2_entropy_single p pj pcnd b = none ∧ Generated.renyi2_entropy_joint p pj pcnd b = none ∧
+    Generated.renyi2_entropy_conditional p pj pcnd b = none ∧ Generated.stdrenyi2_entropy_single p pj sd sdj b = none ∧
+    Generated.stdrenyi2_entropy_joint p pj sd sdj b = none := by
+  rw [gen_renyi2_single, gen_renyi2_joint, gen_renyi2_conditional, gen_stdrenyi2_single, gen_stdrenyi2_joint]
+  simp [C13_base_rejected b hb]
+
 /-! ### non-vacuity -/
 
 example : ∃ v, pcConditional (fun l => (l.length : ℚ)) [1, 2, 3]
@@ -214,5 +280,9 @@ example : renyi2 (some 2) (1 / 2) = 1 := by
   rw [one_div, Real.logb_inv, Real.logb_self_eq_one (by norm_num)]
   norm_num
 
-end Prs
+example : stdRenyi2 (some (Real.exp 1)) 3 (1 / 2) = 6 := by
+  rw [C13_stdrenyi, Real.log_exp]; norm_num
 
+example : checkedBase (some (-1)) (fun b => renyi2 b (1 / 2)) = none := C13_base_rejected _ (by norm_num) _
+
+end Prs
